@@ -13,6 +13,7 @@ package xdownsample
 import (
 	"fmt"
 	"math"
+	"strings"
 	"testing"
 
 	"pgregory.net/rapid"
@@ -209,7 +210,12 @@ func c36Classes(info c36Info, res int64, mode string) (bool, []string) {
 	if info.windows > 1 {
 		cl = append(cl, "windows-2+")
 	}
-	_ = mode
+	if strings.HasSuffix(mode, "/nanrun") {
+		cl = append(cl, "nan-run")
+		if info.chunks > 1 {
+			cl = append(cl, "nan-run-in-multi-chunk-series")
+		}
+	}
 	return info.chunks > 1 && info.nans > 0, cl
 }
 
